@@ -48,7 +48,9 @@ func Race() {
 		start = vx.Choice("start", vx.Param("states"))
 	}
 	// the last process may be cold (started after the keys were created) while the others are warm
-	lastCold := start != stCold && vx.Choice("last_process_cold", 2) == 1
+	// (variants=0: every process warm; variants=1: also the last-process-cold variant)
+	variants := vx.Param("variants") == 1
+	lastCold := variants && start != stCold && vx.Choice("last_process_cold", 2) == 1
 	t0, _ := vx.Now()
 	if start != stCold {
 		vx.ClockFreeze(true)
@@ -64,7 +66,8 @@ func Race() {
 	// revocations are noticed by warm processes only after the revoke-check interval: race either inside it
 	// (warm caches still trusted) or after it
 	late := int64(0)
-	if start >= stIKRevoked && vx.Choice("after_interval", 2) == 1 {
+	// (variants=0: only the race after the interval, where every warm process has to notice the revocation)
+	if start >= stIKRevoked && (!variants || vx.Choice("after_interval", 2) == 1) {
 		late = 2*secs(pol.Revoke) + 2
 	}
 	switch start {
